@@ -90,6 +90,7 @@ func init() {
 			}
 			out = append(out, seq...)
 			out = append(out, Instance{Scenario: "c02_sessions", Params: mustJSON(SessionsParams{}), Bound: 0, Shards: 2, Note: "saves in the sessions after real rebalances that grow / shift the assignment: what is acknowledged on a newly acquired vBucket is stored by the next save (checked by the next session's stream request)"})
+			out = append(out, Instance{Scenario: "c02_twogroups", Params: mustJSON(struct{}{}), Bound: 0, Note: "two consumer groups in one process: a successful save of a group stores ITS positions in ITS documents"})
 			out = append(out, Instance{Scenario: "c05_windowcommit", Params: mustJSON(struct{}{}), Bound: 0, Note: "Commit() inside a rebalance window (manual checkpointing, couchbase and file metadata): what was stored before stays stored"})
 			out = append(out, Instance{Scenario: "c05_grow", Params: mustJSON(struct{}{}), Bound: 0, Note: "a rebalance that enlarges the range: what is acknowledged on the acquired vBuckets survives the last tick of the previous session's schedule and is stored"})
 			out = append(out, Instance{Scenario: "c05_rebalance_paths", Params: mustJSON(struct{}{}), Bound: 0, Note: "the save that precedes the close of a rebalance, for every way a rebalance is requested (bus, PUT /membership/info, GET /rebalance)"})
